@@ -17,7 +17,7 @@ from .smt import (T, INT, BOOL, STR, IntV, BoolV, StrV, TRUE, FALSE, And, Or, No
                   Substr, At, Contains, PrefixOf, SuffixOf, Max, Min)
 from .vals import (Undecided, V, VInt, VBool, VStr, VNone, NONE, VVal, VSeq, VTuple,
                    VRef, VFunc, VPy, VBound, VExc, Raised, HList, HPyList, HDict,
-                   HSet, HInst, parse_type, sort_of, wrap, T_INT, T_BOOL, T_STR,
+                   HSet, HInst, HObjList, parse_type, sort_of, wrap, T_INT, T_BOOL, T_STR,
                    T_NONE, T_VAL)
 from . import contracts as C
 
@@ -359,6 +359,8 @@ class Engine(object):
 
     def seq_of(self, v, st):
         """Seq term and element type of a list-like value."""
+        if isinstance(v, VOptSym) and self.pure:
+            v = v.val       # spec level: an Optional list stands for its value (None excluded by requires)
         if isinstance(v, VSeq):
             return v.t, v.elem
         if isinstance(v, VRef):
@@ -400,6 +402,8 @@ class Engine(object):
                 return Gt(Len(o.seq), IntV(0))
             if isinstance(o, HPyList):
                 return BoolV(len(o.items) > 0)
+            if isinstance(o, HObjList):
+                return Gt(o.n, IntV(0))
             if isinstance(o, HDict):
                 return BoolV(len(o.entries) > 0)
             if isinstance(o, HInst):
@@ -931,6 +935,18 @@ class Engine(object):
         return idx, inrange
 
     def do_index(self, base, idx, st, node=None):
+        if self.pure and isinstance(idx, VInt) and idx.t.s.startswith('q_') and ' ' not in idx.t.s:
+            # spec level, index is a bound variable of an enclosing quantifier over a range
+            # whose guard keeps it inside [0, len): plain element access (no negative wrap)
+            seq = None
+            if isinstance(base, (VStr, VSeq)):
+                seq, elem = base.t, (('str',) if isinstance(base, VStr) else base.elem)
+            elif isinstance(base, VRef) and isinstance(st.heap[base.loc], HList):
+                seq, elem = st.heap[base.loc].seq, st.heap[base.loc].elem
+            if seq is not None:
+                t = At(seq, idx.t)
+                self.note_pattern(t, idx.t)
+                return [(VStr(t) if isinstance(base, VStr) else wrap(t, elem), st)]
         if isinstance(base, VStr) and isinstance(idx, VInt):
             k, inr = self.index_term(base.t, idx.t, st, node, 'str')
             return self._safe_result(inr, VStr(At(base.t, k)), IndexError, st, node)
@@ -952,10 +968,20 @@ class Engine(object):
                     return [(o.items[idx.t.lit[1]], st)]
                 except IndexError:
                     return self._safe_result(FALSE, NONE, IndexError, st, node)
+            if isinstance(o, HObjList) and isinstance(idx, VInt):
+                n = o.n
+                i = idx.t
+                inr = And(Ge(i, smt.Neg(n)), Lt(i, n))
+                return self._safe_result(inr, VExc(o.cls, {}, tag='collected'), IndexError, st, node)
             if isinstance(o, HDict):
                 return self.dict_get(base, o, idx, st, node)
             if isinstance(o, HInst):
                 return self.call_method_on_instance(base, o, '__getitem__', [idx], {}, st, node)
+        if isinstance(base, VVal) and isinstance(idx, VStr):
+            # opaque mapping object (a RuntimeState seen from outside): a pure function of (object, key)
+            self.trusted_used.add('opaque-mapping-read: obj[key] is a pure boolean function rs_flag(obj, key) '
+                                  '(RuntimeState.__getitem__, contract verified under C04)')
+            return [(VBool(self.model_app('rs_flag', [base.t, idx.t], BOOL)), st)]
         if isinstance(base, VPy) and isinstance(base.obj, (dict, list, tuple)):
             ok, k = self.concrete(idx)
             if ok:
@@ -971,7 +997,7 @@ class Engine(object):
         if c is None:
             return False
         for name in c.raises:
-            base = self.exc_class(name.rstrip('*'))
+            base = self.exc_class(name.rstrip('*?'))
             if base is not None and issubclass(cls, base):
                 return True
         return False
